@@ -10,7 +10,8 @@
 (*   s1,s2 arm taken by two type switches (arms1: interfaces top-down;      *)
 (*         arms2: concrete types, then interfaces bottom-up)                *)
 (*   disp  (type, method, call form) -> concrete method reached, receiver   *)
-(*         kind and the counters two successive calls see                   *)
+(*         kind, the counters two successive calls see, the counter of the  *)
+(*         target object afterwards and the path of embedded fields to it   *)
 (*   eq    == on every pair of interface values of the family               *)
 (*   lk    selector lookup facts (for classifying mismatches)               *)
 (* A second kind of unit ("ident") enumerates unnamed type expressions      *)
@@ -127,7 +128,7 @@ Table(sp, F) ==
       disp  |-> LET ps == SetToSeq(probes) IN
                 [k \in DOMAIN ps |->
                    LET d == Dispatch(F, ps[k][1], mids[ps[k][2]], Forms[ps[k][3]]) IN
-                   <<ps[k][1], ps[k][2], Forms[ps[k][3]], d.target, d.recv, d.seen[1], d.seen[2]>>],
+                   <<ps[k][1], ps[k][2], Forms[ps[k][3]], d.target, d.recv, d.seen[1], d.seen[2], d.seen[3], d.path>>],
       eq    |-> [a \in DOMAIN vals |-> [b \in DOMAIN vals |-> IF IfaceEq(F, vals[a], vals[b]) THEN 1 ELSE 0]]]
 
 -----------------------------------------------------------------------------
